@@ -18,6 +18,7 @@ package override
 
 import (
 	"fmt"
+	"path"
 	"strconv"
 	"strings"
 
@@ -141,13 +142,13 @@ func volumeIndexer(y any, p tree.Path) (string, error) {
 		if !ok {
 			return "", fmt.Errorf("service volume %s is missing a mount target", p)
 		}
-		return target, nil
+		return path.Clean(target), nil
 	case string:
 		volume, err := format.ParseVolume(value)
 		if err != nil {
 			return "", err
 		}
-		return volume.Target, nil
+		return path.Clean(volume.Target), nil
 	}
 	return "", nil
 }
